@@ -917,8 +917,75 @@ def check_c16(tier, seed):
         on_result=snap_oracle, extra=c16_extra, level="translation_validation", release_sample=5)
 
 
+# ----------------------------------------------------------------------------------------------
+# C13: one process at a time
+# ----------------------------------------------------------------------------------------------
+def check_c13(tier, seed):
+    import procs, re
+    from concurrent.futures import ThreadPoolExecutor
+    rep = Report("C13", tier, seed, "proof")
+    b = vlib.build(release=False)
+    gate = vlib.proof_gate("C13", b)
+    rd = RunDir()
+    rng = random.Random(seed)
+    failed = 0
+    try:
+        if b.cargo_ok and b.extract_ok:
+            lock_first = generated_flag("lock_before_init")
+            rx = [re.compile(x) for x in procs.expected_words(bool(lock_first))]
+            pls = procs.plans(tier, rng)
+
+            def one(pl):
+                existing, plan = pl
+                d = rd.sub()
+                r = procs.scenario(d, plan, existing)
+                shutil.rmtree(d, ignore_errors=True)
+                return pl, r
+
+            with ThreadPoolExecutor(6) as ex:
+                results = list(ex.map(one, pls))
+            reported = set()
+            wordset = {}
+            for (existing, plan), (recs, words, problems) in results:
+                rep.count("c13", "%s %s" % (existing, plan), True)
+                probs = list(problems)
+                for marker, w in words:
+                    ws = " ".join(w)
+                    wordset[ws] = wordset.get(ws, 0) + 1
+                    if not any(r.fullmatch(ws) for r in rx) and not probs:
+                        probs.append("conformance: system-call word of open `%s` is not a word of the model's per-process automaton (lock_before_init=%s)" % (ws, lock_first))
+                if probs:
+                    failed += 1
+                    key = probs[0][:40]
+                    if key in reported or len(reported) >= 3:
+                        continue
+                    reported.add(key)
+                    rep.violation("file %s, plan %s: %s" % ("exists" if existing else "does not exist", plan, probs[0]),
+                                  dict(kind="process-ordering", property="C13", existing=existing, plan=plan, problems=probs, records=recs,
+                                       words=[" ".join(w) for _, w in words],
+                                       how="plan entries are (marker, start offset ms, hold ms, (syscall, delay_exit usec) or None): each starts "
+                                           "`strace -P db -e inject=<syscall>:delay_exit=<usec>:when=1 harness proc db <marker> <hold>`"),
+                                  no_input=probs[0].startswith("conformance"))
+            rep.cov["open_syscall_words"] = wordset
+            rep.cov["generated_lock_before_init"] = lock_first
+        rep.cov["rule"] = ("2 and 3 processes opening the same file (existing / not yet created); one process is held inside openat / fallocate / "
+                           "write / fsync / flock / mmap of its open (strace delay_exit) while others start at offsets 0 / 150 / 350 ms; every "
+                           "process commits a marker and holds the database for a while; oracle: every open succeeds (waits, no error, no panic), "
+                           "monotonic [opened, closing] intervals are disjoint, each opener sees exactly the markers committed before it; the "
+                           "system-call word of every open must be a word of the model's automaton; non-trivial = every scenario")
+        rep.sample(dict(existing=False, plan=[["a", 0, 50, ["fallocate", 600000]], ["b", 150, 50, None]],
+                        meaning="b arrives while a has created and sized the file but not written its pages"))
+        rep.cov["traces_validated_against_impl"] = rep.cov["evaluations"]
+        fill_proof_cov(rep, gate, TRUSTED_COMMON + ["strace 6.1 (observation and delay injection); flock(2) semantics of Linux"])
+        gate_or_search(rep, "C13", b, gate, failed > 0)
+        return rep.finish()
+    finally:
+        rd.cleanup()
+
+
 CHECKS = {"C01": check_c01, "C02": check_c02, "C03": check_c03, "C04": check_c04, "C05": check_c05, "C06": check_c06,
-          "C07": check_c07, "C08": check_c08, "C09": check_c09, "C11": check_c11, "C12": check_c12, "C16": check_c16}
+          "C07": check_c07, "C08": check_c08, "C09": check_c09, "C11": check_c11, "C12": check_c12, "C13": check_c13,
+          "C16": check_c16}
 
 
 def main(argv):
